@@ -950,12 +950,97 @@ func c04FamEndMarker(r *Run) *Family {
 }
 
 // ---------------------------------------------------------------------------
+// family 8: string literals that look like template syntax, alone and between other placeholders
+// of the same scalar. Only the Linter level can see how placeholders are found in a template string.
+
+// contents of string literals (” is the escaped quote)
+var c04TemplateLiterals = []string{
+	"${{", "${", "{{", "$", "{", "}", "} x", "}x", "''", "it''s ${{", "${{ x }", "${{ x } }", "${{ (", "$${{", "{{{", "${{''", "''${{",
+	"${{ github.sha", "x ${{ y", "${{${{", "${ {", "$ {{", "%{{", "${{ '' }",
+	// with the end marker inside the literal (the tokenizer honours string literals, so it is content)
+	"}}", "${{ x }}", "a }} b", "{{ x }}", "}}}", "${{ '' }}",
+}
+
+// sentences without semantic errors at run:, env:, if: and name: of a step; # is the literal
+var c04TemplateShapes = []string{
+	"'#'", "github.ref == '#'", "contains(github.ref, '#')", "startsWith('#', '#') && true", "'#' != 'x' || github.sha == '#'", "!endsWith(github.ref, '#')", "github.ref=='#'",
+}
+
+var c04CleanPlaceholders = []string{"${{ 1 }}", "${{ 'x' }}", "${{github.sha}}", "${{ true && 1 == 1 }}", "${{ 'it''s' }}", "${{ '}' }}", "${{ '${{' }}", "${{ github.ref != '${{ x' }}"}
+var c04BrokenPlaceholders = []string{"${{ a b }}", "${{ 1 == }}", "${{ }}", "${{ 'x }}", "${{ github.ref = 'x' }}", "${{ f(1,) }}", "${{ '${{' ' }}", "${{ 1 ${{ 2 }}"}
+var c04TemplateSeps = []string{" ", "-", "", " $ ", "{", "} ", " text ", "$", "'"}
+
+func c04FamTemplateLiterals(r *Run) *Family {
+	ns := len(c04TemplateShapes)
+	return &Family{Name: "template-literals", N: len(c04TemplateLiterals) * ns, Do: func(c *Case) {
+		x := c04NewCtx(c)
+		defer x.Done()
+		x.lintTailEvery = 1
+		lit := c04TemplateLiterals[c.Idx/ns]
+		sentence := strings.ReplaceAll(c04TemplateShapes[c.Idx%ns], "#", lit)
+		// the sentence alone: parser level and the five embeddings
+		v := x.Parse(sentence, "template-literals")
+		if v.Silent != "" || !v.Accept {
+			x.selfCheck(fmt.Sprintf("template-literals: %q is not a sentence for the reference", sentence))
+			return
+		}
+		x.Lint(sentence)
+		if c.Idx%53 == 0 {
+			c.Sample(map[string]interface{}{"family": "template-literals", "text": sentence, "reference": "sentence " + v.Sexpr})
+		}
+		pick := func(pool []string) string { return pool[c.R.Intn(len(pool))] }
+		for key := 0; key < c04NKey; key++ {
+			for pad := 0; pad < 2; pad++ {
+				target := "${{ " + sentence + " }}"
+				if pad == 1 {
+					target = "${{" + sentence + "}}"
+				}
+				for npre := 0; npre <= 2; npre++ {
+					for npost := 0; npost <= 2; npost++ {
+						build := func(broken int) string {
+							var b strings.Builder
+							if key == c04KeyRun || c.R.Bool() {
+								b.WriteString("echo ")
+							}
+							for i := 0; i < npre; i++ {
+								b.WriteString(pick(c04CleanPlaceholders))
+								b.WriteString(pick(c04TemplateSeps))
+							}
+							b.WriteString(target)
+							for i := 0; i < npost; i++ {
+								b.WriteString(pick(c04TemplateSeps))
+								if i == broken {
+									b.WriteString(pick(c04BrokenPlaceholders))
+								} else {
+									b.WriteString(pick(c04CleanPlaceholders))
+								}
+							}
+							if c.R.Bool() {
+								b.WriteString(pick(c04TemplateSeps) + "tail")
+							}
+							return b.String()
+						}
+						x.batch.AddTemplate(key, build(-1), sentence, true)
+						x.cnt["template_all_sentences"]++
+						for broken := 0; broken < npost; broken++ {
+							x.batch.AddTemplate(key, build(broken), sentence, true)
+							x.cnt["template_with_later_broken_placeholder"]++
+						}
+					}
+				}
+			}
+		}
+	}}
+}
+
+// ---------------------------------------------------------------------------
 
 func runC04(r *Run) {
-	r.Rule = "reference model (regex maximal-munch tokenizer + grammar table recognised by a generic Earley recogniser + precedence-climbing tree builder) against actionlint.NewExprLexer/NewExprParser().Parse and against Linter.Lint with the text embedded as ${{ }} in run:/env: values and as if: condition. Workloads: every string over the 23-symbol token alphabet and every string over the 25-character lexical alphabet up to a length bound; every whitespace filling of every sentence of up to 5 tokens; operator chains; random grammar sentences (nesting depth <= 12) with token/character mutations; a list of number forms in 24 contexts; end-marker texts. Non-trivial = a distinct text the reference decides (a hash-selected 1/8 of the sentences and 1/64 of the non-sentences are recorded)."
+	r.Rule = "reference model (regex maximal-munch tokenizer + grammar table recognised by a generic Earley recogniser + precedence-climbing tree builder) against actionlint.NewExprLexer/NewExprParser().Parse and against Linter.Lint with the text embedded as ${{ }} in run:/env: values and as if: condition. Workloads: every string over the 23-symbol token alphabet and every string over the 25-character lexical alphabet up to a length bound; every whitespace filling of every sentence of up to 5 tokens; operator chains; random grammar sentences (nesting depth <= 12) with token/character mutations; a list of number forms in 24 contexts; end-marker texts; sentences whose string literals look like template syntax (${{, ${, {{, }, }} ...) alone in the five embeddings and in template scalars (run:, env:, if:, name:) between 0-2 further placeholders on each side, with and without a broken later placeholder. Non-trivial = a distinct text the reference decides (a hash-selected 1/8 of the sentences and 1/64 of the non-sentences are recorded)."
 	r.Assume("the documented language is: literals null/true/false/number/'string', identifiers [A-Za-z_][A-Za-z0-9_-]*, postfix .name .* [expr] on any primary, calls ident(args), !, comparisons (chains allowed), &&, ||, parentheses; whitespace is space, tab, CR, LF")
 	r.Assume("numbers: JSON number grammar or 0x followed by hex digits; compared as float64 values (int/float distinction is not part of the statement)")
 	r.Assume("statement silent, not compared: a number literal immediately followed by '.', hex literals with a redundant leading zero (0x01), signed hex literals (-0x1), float literals that overflow a double (1e309)")
+	r.Assume("placeholders of a template string are found left to right: one starts at \"${{\" and ends with the first \"}}\" token behind it (string literals are honoured, so \"}}\" and \"${{\" inside a literal are content); the search continues behind that end; actionlint reports only the first failing placeholder of a scalar. A bare if: condition that contains \"${{\" followed by \"}}\" is not compared (bare expression or template is not said)")
 	r.Assume("only diagnostics of kind \"expression\" count; on a sentence only those whose message starts with one of the lexer/parser phrases are syntax diagnostics")
 	r.Assume("for a bare if: condition an error column up to two columns behind the text (the end marker actionlint appends) still counts as inside the placeholder; for quoted scalars the quote column counts as inside")
 
@@ -963,6 +1048,7 @@ func runC04(r *Run) {
 	charLen := r.Q(4, 5)
 	fams := []*Family{
 		c04FamEndMarker(r),
+		c04FamTemplateLiterals(r),
 		c04FamNumbers(r),
 		c04FamChains(r, r.Q(4, 5)),
 		c04FamTokens(r, r.Q(2, 3), tokLen, 4, r.Thorough()),
@@ -1007,6 +1093,11 @@ func runC04(r *Run) {
 		need(r.Counter("lint_accepted:"+c04EmbName[e]) > 50, "fewer than 50 sentences linted as "+c04EmbName[e])
 		need(r.Counter("lint_rejected:"+c04EmbName[e]) > 50, "fewer than 50 non-sentences linted as "+c04EmbName[e])
 	}
+	for k := 0; k < c04NKey; k++ {
+		need(r.Counter("lint_accepted:template-"+c04KeyName_[k]) > 500, "fewer than 500 all-sentence template scalars linted at "+c04KeyName_[k]+":")
+		need(r.Counter("lint_rejected:template-"+c04KeyName_[k]) > 200, "fewer than 200 template scalars with a later broken placeholder linted at "+c04KeyName_[k]+":")
+	}
+	need(r.Counter("template_scalars_with_5_placeholders") > 50, "fewer than 50 template scalars with five placeholders")
 	need(r.Counter("lint_position_checked") > 1000, "fewer than 1000 diagnostic positions checked")
 	for _, s := range []string{"number-immediately-followed-by-dot", "hex-with-redundant-leading-zero", "signed-hex", "float-literal-beyond-double-range"} {
 		need(r.SetHas("silent_classes_seen", s), "excluded class "+s+" never met (the exclusion is dead code or the workload changed)")
